@@ -360,6 +360,10 @@ def run(res, tier, seed, shard, nshards):
                 rng = rng_for("C06", tier, seed, shard, ci, h)
                 prof = Profile()
                 prof.query_probes = False
+                if h % 5 == 3:  # instants at and around the epoch
+                    from .. import gen as _gen
+
+                    prof.grid = _gen.EPOCH_GRID
                 if h % 5 == 2:  # hundreds of rows
                     prof.max_rows = 400
                     prof.min_ops, prof.max_ops = 3, 6
